@@ -1,4 +1,5 @@
 """C05 — circuits survive JSON serialisation unchanged in structure and meaning."""
+import copy
 import io
 import json
 import keyword
@@ -12,11 +13,22 @@ from ..common import rat
 
 PROP = "C05"
 RULE = ("seeded random gate trees (depth <= 4, wrappers built with the raw constructors so every nesting order "
-        "occurs) over all built-in gates and custom gates with symbolic matrices; parameters int / float (incl. "
-        "exponent format, 17-digit) / sympy rational, pi-multiple, Float / bare, sympy-shadowing and indexed symbols / "
-        "expressions; through json.dumps/loads and through save_*/load_* on a temp file or stream; circuit lists; "
-        "symbol-table cases; a malformed-dictionary stream for the deserialiser.  non-trivial: >= 1 wrapper or custom "
-        "gate or symbolic parameter (symtab: >= 1 indexed name); distinct = distinct canonical JSON of the case")
+        "occurs, 1-3 controls, exponents incl. 0 / ints beyond 2**53 / sub-tolerance floats) over all built-in gates "
+        "and custom gates with symbolic matrices (variants of one definition under one name, names close to the "
+        "markers or differing in case only, equal-but-distinct definition objects); parameters int (hash-colliding "
+        "pairs, > 2**53, numpy) / float (exponent format, 17-digit, denormal, below 1e-8, 0.0 / -0.0) / complex / "
+        "sympy rational, pi-multiple, Float, I, roots, named constants / bare, sympy-shadowing, indexed symbols / "
+        "expressions with coefficients spanning 1e-12..1e10 / bound variables (oracle only); repeated equal "
+        "parameters, repeated and nearly repeated operations, multi-digit qubit indices, registers up to 2**53+1; "
+        "circuits built by constructor / + / live operations list / inverse / controlled / bind; through "
+        "json.dumps/loads and save_*/load_* on a path string, pathlib path, caller-opened file, stream; circuit lists "
+        "(empty, gate-less, >= 64); FAMILIES: circuits differing in exactly one component, alive together, run "
+        "through one interleaved history (serialise all / deserialise in reverse; scribble on the returned "
+        "dictionaries and serialise again; one dictionary deserialised twice with the first result mutated; live "
+        "operations list changed after serialising; one file path reused; all as one list), every (original twin, "
+        "result) pair put to the oracle; same-text-two-meanings families; conflicting definitions; symbol-table cases; "
+        "a malformed-dictionary stream; all cases shuffled into one process history.  non-trivial: >= 1 wrapper or "
+        "custom gate or symbolic parameter (symtab: >= 1 indexed name); distinct = distinct canonical JSON of the case")
 TRUSTED = [
     "str(expr) / sympy.sympify(text, locals=table) return an expression equal to the original (normalised: Python "
     "int -> Integer, float -> Float, Float printed with 15 digits) whenever every free symbol of the expression "
@@ -36,12 +48,24 @@ ASSUMPTIONS = [
     "symbol-name-used-by-expression-text): this is the only reason the round-trip theorems are `_partial`",
     "symbols carry no sympy assumptions (Symbol('x', real=True) comes back as Symbol('x'))",
     "matrices are compared only for gates with <= 3 qubits whose wrappers are controlled / dagger / integer powers |e| <= 3 "
-    "(sympy's Matrix.exp and fractional powers of float matrices can run for minutes or exhaust memory)",
+    "(sympy's Matrix.exp and fractional powers of float matrices can run for minutes or exhaust memory), to 1e-9 of the "
+    "largest entry, and not for gates with numpy-scalar parameters (sympy 1.9 cannot take numpy-2 scalars into a matrix)",
+    "numpy floating-point scalars are not used as parameters (free_symbols of such a gate already raises under numpy 2 / "
+    "sympy 1.9); numpy integers are",
+    "two different definitions under one name in ONE circuit cannot be represented by the format: to_dict raising "
+    "ValueError is accepted for them; if it does not raise, the round trip is put to the oracle like any other "
+    "(definitions closer than the library's 1e-8 equality tolerance are merged: known finding "
+    "same-name-definitions-within-tolerance-merged)",
+    "a circuit whose live `operations` list was appended to / replaced in / popped from is a circuit like any other "
+    "(its n_qubits is kept >= the width of the operations by the generator)",
+    "the model answers the list form of a family (phase E) and every plain circuit / list; the other phases of a "
+    "family, non-ASCII identifiers, bound variables and the within-tolerance conflict are oracle-only",
 ]
 
 SIG_CUSTOM_SYM = "custom-gate-symbolic-argument"
 SIG_NAME_TEXT = "symbol-name-used-by-expression-text"
 SIG_FLOAT = "python-float-long-repr"
+SIG_MERGED = "same-name-definitions-within-tolerance-merged"
 _SOFT = []
 _FULL_NS = {}
 _LENIENT = [False]     # (kept off) compare symbols only
@@ -88,7 +112,20 @@ def _num(sp):
         return sympy.Rational(v) * sympy.pi
     if k == "flt":
         return sympy.Float(v)
+    if k == "sy":
+        return SY[v](sympy)
     raise AssertionError(k)
+
+
+# exact sympy numbers that are neither rationals nor pi-multiples (exotic but legal: the imaginary unit, roots of
+# unity written without I, named constants, bare constants)
+SY = {
+    "I": lambda s: s.I, "-I": lambda s: -s.I, "I/2": lambda s: s.I / 2, "1+2*I": lambda s: 1 + 2 * s.I,
+    "sqrt2": lambda s: s.sqrt(2), "cbrt-1": lambda s: s.Integer(-1) ** s.Rational(1, 3),
+    "golden": lambda s: s.GoldenRatio, "E": lambda s: s.E, "2*E": lambda s: 2 * s.E, "exp2": lambda s: s.exp(2),
+    "eulergamma": lambda s: s.EulerGamma, "log2": lambda s: s.log(2), "3*pi": lambda s: 3 * s.pi,
+    "2*I": lambda s: 2 * s.I, "3*E": lambda s: 3 * s.E, "2*pi": lambda s: 2 * s.pi, "pi": lambda s: s.pi,
+}
 
 
 def build_param(sp):
@@ -100,10 +137,17 @@ def build_param(sp):
         return float(v)
     if k == "np":
         return np.float64(v)
+    if k == "npi":
+        return np.int64(v)
+    if k == "cx":
+        return complex(v[0], v[1])
     if k == "sym":
         return sympy.Symbol(v)
-    if k in ("rat", "pi", "sflt"):
+    if k in ("rat", "pi", "sflt", "sy"):
         return _num({"flt" if k == "sflt" else k: v})
+    if k == "sum":            # a bound variable: Sum(c*name*k, (k, 1, 3)); `k` is not a free symbol
+        kk = sympy.Symbol("k")
+        return sympy.Sum(_num(v[0]) * sympy.Symbol(v[1]) * kk, (kk, 1, 3))
     if k == "lin":
         e = _num(v["const"]) if v.get("const") else sympy.Integer(0)
         for coef, name in v["terms"]:
@@ -143,7 +187,7 @@ def build_def(name, ds):
         tuple(sympy.Symbol(s) for s in ds["ordering"]))
 
 
-def build_gate(gs, defs):
+def build_gate(gs, defs, dspecs=None):
     _, _, _, bg, g, _ = _m()
     t = gs["t"]
     if t == "b":
@@ -151,8 +195,12 @@ def build_gate(gs, defs):
         ps = [build_param(p) for p in gs["params"]]
         return ref(*ps) if builtin_table()[gs["name"]][1] > 0 else ref
     if t == "c":
-        return defs[gs["def"]](*[build_param(p) for p in gs["params"]])
-    inner = build_gate(gs["g"], defs)
+        d = defs[gs["def"]]
+        if gs.get("fresh") and dspecs is not None:      # an equal but distinct definition object
+            ds = dspecs[gs["def"]]
+            d = build_def(ds.get("gate_name", gs["def"]), ds)
+        return d(*[build_param(p) for p in gs["params"]])
+    inner = build_gate(gs["g"], defs, dspecs)
     if t == "ctrl":
         return g.ControlledGate(inner, gs["k"])
     if t == "dag":
@@ -164,13 +212,82 @@ def build_gate(gs, defs):
     raise AssertionError(t)
 
 
+def _build_defs(cs):
+    return {key: build_def(ds.get("gate_name", key), ds) for key, ds in (cs.get("defs") or {}).items()}
+
+
+def _build_op(o, defs, dspecs):
+    cq = _m()[2]
+    return cq.GateOperation(build_gate(o["g"], defs, dspecs), tuple(o["q"]))
+
+
+ROUTES = ["add_ops", "add_circ", "live_extend", "inverse", "controlled", "bind"]
+
+
 def build_circuit(cs):
+    """the circuit of a spec; `route` says through which public way the object comes into being (constructor,
+    `+`, appending to the live `operations` list, `inverse`, `controlled`, `bind`): whatever object results IS the
+    original of the round trip"""
     _, _, cq, *_ = _m()
-    defs = {}
-    for key, ds in (cs.get("defs") or {}).items():
-        defs[key] = build_def(ds.get("gate_name", key), ds)
-    ops = [cq.GateOperation(build_gate(o["g"], defs), tuple(o["q"])) for o in cs["ops"]]
-    return cq.Circuit(ops, n_qubits=cs.get("n"))
+    defs = _build_defs(cs)
+    dspecs = cs.get("defs") or {}
+    ops = [_build_op(o, defs, dspecs) for o in cs["ops"]]
+    n = cs.get("n")
+    route = cs.get("route")
+    half = len(ops) // 2
+    try:
+        if route == "add_ops":
+            c = cq.Circuit(n_qubits=n)
+            for o in ops:
+                c = c + o
+            return c
+        if route == "add_circ":
+            return cq.Circuit(ops[:half], n_qubits=n) + cq.Circuit(ops[half:])
+        if route == "live_extend":
+            width = max([q + 1 for o in cs["ops"] for q in o["q"]] + [n or 0])
+            c = cq.Circuit(ops[:half], n_qubits=width or None)
+            c.operations.extend(ops[half:])
+            return c
+        if route == "inverse":
+            return cq.Circuit(ops, n_qubits=n).inverse()
+        if route == "controlled":
+            return cq.Circuit(ops, n_qubits=n).controlled(cs.get("route_arg", 0))
+        if route == "bind":
+            c = cq.Circuit(ops, n_qubits=n)
+            fs = c.free_symbols
+            return c.bind({fs[0]: 0.25}) if fs else c
+    except NotImplementedError:          # bind of a power / exponential gate
+        pass
+    return cq.Circuit(ops, n_qubits=n)
+
+
+def apply_late(c, cs):
+    """a change made to the live `operations` list of an existing (already serialised) circuit"""
+    late = cs["late"]
+    ops = c.operations
+    if late["how"] == "pop":
+        ops.pop()
+        return
+    op = _build_op(late["op"], _build_defs(cs), cs.get("defs") or {})
+    if late["how"] == "append":
+        ops.append(op)
+    else:
+        ops[late["at"]] = op
+
+
+def late_applied(cs):
+    """the spec of the circuit after its late change (used only to classify the case)"""
+    cs2 = {k: v for k, v in cs.items() if k != "late"}
+    late = cs["late"]
+    ops = list(cs["ops"])
+    if late["how"] == "pop":
+        ops = ops[:-1]
+    elif late["how"] == "append":
+        ops = ops + [late["op"]]
+    else:
+        ops[late["at"]] = late["op"]
+    cs2["ops"] = ops
+    return cs2
 
 
 # ---------------------------------------------------------------- model AST of real objects
@@ -299,56 +416,111 @@ def dict_texts(d, acc=None):
 
 
 # ---------------------------------------------------------------- cases
-PLAIN = ["theta", "phi", "alpha", "omega_1", "t", "a0"]
-SHADOW = ["beta", "gamma", "S", "N", "E", "I", "Q", "O", "zeta", "lamda", "Symbol", "Rational"]
-INDEXED = ["v[0]", "v[1]", "v[3]", "v[12]", "w[2]", "par_x[7]"]
+PLAIN = ["theta", "phi", "alpha", "omega_1", "t", "a0", "_t", "__x__", "w", "q1"]   # w, q1: also bases of indexed names
+SHADOW = ["beta", "gamma", "S", "N", "E", "I", "Q", "O", "zeta", "lamda", "Symbol", "Rational",
+          "oo", "re", "Mul", "true"]      # (not pi: pi-multiples are everywhere, see meaning siblings for it)
+INDEXED = ["v[0]", "v[1]", "v[3]", "v[12]", "w[2]", "par_x[7]", "b7[2]", "_p[1]", "q1[10]", "v[100]"]
+UNICODE = ["θ", "φ2"]            # identifiers, but not ASCII (the model's scanner is ASCII: oracle-only cases)
+
+# Python numbers chosen for what shortcuts get wrong: falsy values, hash collisions (hash(-1) == hash(-2),
+# hash(0) == hash(2**61-1)), ints beyond 2**53, floats below every absolute tolerance, long reprs, huge values
+INTS = [0, 1, -1, -2, 2, 3, 17, -40, 2 ** 70, 2 ** 61 - 1, 2 ** 53 + 1, -(2 ** 61)]
+FLOATS = [0.5, -0.25, 0.1, 0.30000000000000004, 1e-05, 1.5e+300, 1e+16, 123456.789, 2.0, -0.0, 0.0, -1.0, -2.0,
+          1e-09, -3e-11, 1e-15, 1e-300, 5e-324, 1 / 3, 100000000.5, 0.1 + 1e-9, 0.5 + 1e-13]
+COMPLEX = [[0.0, 0.5], [2.0, 3.0], [1.0, 1e-07], [1000.0, 1e-06], [0.0, 1e-09], [-0.25, -0.1], [0.30000000000000004, 1e-12]]
 
 
 def _coef(rng, floats=True):
     k = rng.random()
     if k < 0.35:
         return {"int": rng.choice([-3, -1, 2, 3, 7])}
-    if k < 0.55:
+    if k < 0.5:
         return {"rat": rng.choice(["1/2", "-1/3", "3/4", "5/7"])}
-    if k < 0.75:
+    if k < 0.68:
         return {"pi": rng.choice(["1/2", "1", "-1/4", "2/3"])}
-    if floats:
-        return {"flt": rng.choice([0.5, 0.25, -1.5, 0.1, 0.30000000000000004, 1e-05, 2.5e+20, 1 / 3])}
+    if k < 0.75:
+        return {"sy": rng.choice(["sqrt2", "cbrt-1", "log2"])}
+    if floats:                # coefficients spanning more than 1e8 in one expression, and below 1e-8
+        return {"flt": rng.choice([0.5, 0.25, -1.5, 0.1, 0.30000000000000004, 1e-05, 2.5e+20, 1 / 3,
+                                   1e-09, 3e-12, 1e+10, -7e-10])}
     return {"int": 2}
 
 
 def gen_numeric(rng):
     k = rng.random()
     if k < 0.2:
-        return {"int": rng.choice([0, 1, -1, 2, 3, 17, -40, 2 ** 70])}
-    if k < 0.55:
-        return {"flt": rng.choice([0.5, -0.25, 0.1, 0.30000000000000004, 1e-05, 1.5e+300, 1e+16, 123456.789,
-                                   rng.uniform(-7, 7), rng.uniform(-1e-6, 1e-6), 2.0, -0.0])}
-    if k < 0.7:
-        return {"rat": rng.choice(["1/2", "-1/3", "22/7", "3"])}
-    if k < 0.85:
+        return {"int": rng.choice(INTS)}
+    if k < 0.23:
+        return {"npi": rng.choice([0, 3, -1, -2, 2 ** 40])}          # a numpy integer
+    if k < 0.5:
+        return {"flt": rng.choice(FLOATS + [rng.uniform(-7, 7), rng.uniform(-1e-6, 1e-6), rng.uniform(-1e-9, 1e-9)])}
+    if k < 0.57:
+        return {"cx": rng.choice(COMPLEX)}
+    if k < 0.68:
+        return {"rat": rng.choice(["1/2", "-1/3", "22/7", "3", "0", "-1", "-2"])}
+    if k < 0.8:
         return {"pi": rng.choice(["1/2", "1", "-1/4", "2/3", "2"])}
-    return {"sflt": rng.choice([0.5, 0.1, 0.30000000000000004, rng.uniform(-3, 3)])}
+    if k < 0.88:
+        return {"sy": rng.choice(sorted(SY))}
+    return {"sflt": rng.choice([0.5, 0.1, 0.30000000000000004, rng.uniform(-3, 3), 1e-09, 0.0, 1e-300])}
+
+
+_SUMS = [False]       # bound variables (Sum) only in the oracle-only exotic stream: the model's scanner knows no binders
 
 
 def gen_symbolic(rng, pool):
     k = rng.random()
     if k < 0.4:
         return {"sym": rng.choice(pool)}
-    if k < 0.8:
+    if k < 0.78:
         names = rng.sample(pool, min(len(pool), rng.randrange(1, 4)))
         return {"lin": {"const": _coef(rng) if rng.random() < 0.5 else None,
                         "terms": [[_coef(rng), n] for n in names]}}
-    if k < 0.9:
+    if k < 0.86:
         return {"prod": rng.sample(pool, min(len(pool), 2))}
+    if k < 0.91 and _SUMS[0]:
+        return {"sum": [_coef(rng, False), rng.choice(pool)]}
     return {"fn": [rng.choice(["sin", "cos", "exp"]), {"lin": {"const": None, "terms": [[_coef(rng, False), rng.choice(pool)]]}}]}
 
 
-def sym_pool(rng):
+def _pspec_names(p):
+    """free symbol names of a parameter spec"""
+    (k, v), = p.items()
+    if k == "sym":
+        return [v]
+    if k == "lin":
+        return [n for _c, n in v["terms"]]
+    if k == "prod":
+        return list(v)
+    if k == "fn":
+        return _pspec_names(v[1])
+    if k == "sum":
+        return [v[1]]
+    return []
+
+
+def _f13_clash(ps):
+    """a plain name and an indexed name with that base among the symbols of ONE gate (outside the domain); the
+    same two names in different gates of one circuit are fine and wanted"""
+    names = {n for p in ps for n in _pspec_names(p)}
+    plain = {n for n in names if not parse_indexed(n)}
+    return any(parse_indexed(n)[0] in plain for n in names if parse_indexed(n))
+
+
+def sym_pool(rng, unicode_ok=False):
     """a pool of symbol names without base-name clashes (F13 is outside the domain)"""
     pool = rng.sample(PLAIN, 3) + rng.sample(SHADOW, 3) + rng.sample(INDEXED, 3)
+    if rng.random() < 0.3:           # a plain name and an indexed name with that base: legal in DIFFERENT gates
+        pool += rng.choice([["w", "w[2]"], ["q1", "q1[10]"]])
+    if unicode_ok:
+        pool += UNICODE
     rng.shuffle(pool)
     return pool
+
+
+def _diag4(a, b, c, d):
+    z = {"int": 0}
+    return [[a, z, z, z], [z, b, z, z], [z, z, c, z], [z, z, z, d]]
 
 
 DEFS = {
@@ -359,22 +531,65 @@ DEFS = {
     "Const": {"ordering": [], "matrix": [[{"flt": 0.6}, {"flt": 0.8}], [{"flt": -0.8}, {"flt": 0.6}]]},
     "Swp": {"ordering": [], "matrix": [[{"int": 1}, {"int": 0}, {"int": 0}, {"int": 0}], [{"int": 0}, {"int": 0}, {"int": 1}, {"int": 0}],
                                        [{"int": 0}, {"int": 1}, {"int": 0}, {"int": 0}], [{"int": 0}, {"int": 0}, {"int": 0}, {"int": 1}]]},
-    "ZZc": {"ordering": ["a", "S"], "matrix": [[{"expi": "a"}, {"int": 0}, {"int": 0}, {"int": 0}], [{"int": 0}, {"expi": "S"}, {"int": 0}, {"int": 0}],
-                                               [{"int": 0}, {"int": 0}, {"expi": "S"}, {"int": 0}], [{"int": 0}, {"int": 0}, {"int": 0}, {"expi": "a"}]]},
+    "ZZc": {"ordering": ["a", "S"], "matrix": _diag4({"expi": "a"}, {"expi": "S"}, {"expi": "S"}, {"expi": "a"})},
     "F3": {"ordering": ["x"], "matrix": [[{"lin": {"const": {"flt": 0.30000000000000004}, "terms": [[{"flt": 1 / 3}, "x"]]}}, {"int": 0}],
                                          [{"int": 0}, {"int": 1}]]},
+    # entries that are sympy constants (bare, and with the coefficients the expression generator also uses for
+    # SYMBOLS called E / I / pi: the same text with another meaning), three formal parameters one of them unused
+    "Kc": {"ordering": ["t"], "matrix": [[{"expi": "t"}, {"int": 0}], [{"int": 0}, {"sy": "2*E"}]]},
+    "Ki": {"ordering": [], "matrix": [[{"int": 1}, {"int": 0}], [{"int": 0}, {"sy": "I"}]]},
+    "Kp": {"ordering": ["t"], "matrix": [[{"sy": "3*pi"}, {"int": 0}], [{"int": 0}, {"expi": "t"}]]},
+    "T3": {"ordering": ["p", "q1[10]", "r"], "matrix": [[{"expi": "p"}, {"int": 0}], [{"int": 0}, {"expi": "q1[10]"}]]},
+    "Tiny": {"ordering": ["x"], "matrix": [[{"lin": {"const": {"flt": 1e-09}, "terms": [[{"flt": 1e+10}, "x"]]}}, {"flt": 3e-12}],
+                                           [{"int": 0}, {"flt": 1e-300}]]},
 }
-DEF_QUBITS = {"U1": 1, "U12": 1, "Ph2": 1, "Vix": 1, "Const": 1, "Swp": 2, "ZZc": 2, "F3": 1}
+DEF_QUBITS = {"U1": 1, "U12": 1, "Ph2": 1, "Vix": 1, "Const": 1, "Swp": 2, "ZZc": 2, "F3": 1, "Kc": 1, "Ki": 1, "Kp": 1,
+              "T3": 1, "Tiny": 1}
+# names close to, but different from, the built-in names and the wrapper markers (and not ASCII-only)
+ODD_NAMES = ["control", "Controlled", "Daggered", "exponential", "rx", "u3", "x", "Swap", "U 1", "U.1", "Ü1", "power"]
+
+
+def legal_custom_name(x):
+    """not a global of the built-in gates module, not a wrapper marker / pattern (the property's domain)"""
+    bg = _m()[3]
+    return bool(x) and not hasattr(bg, x) and not x.endswith("Dagger") and "^" not in x and x not in ("Control", "Exponential")
+
+
+def def_variant(rng, ds):
+    """another definition of the same shape, same formal parameters and same FIRST row: one entry of a later
+    row changed (clearly, or only by a little)"""
+    ds2 = copy.deepcopy(ds)
+    rows = ds2["matrix"]
+    i = rng.randrange(1, len(rows))
+    j = rng.randrange(len(rows[i]))
+    e = rows[i][j]
+    (k, v), = e.items()
+    if k == "int":
+        rows[i][j] = rng.choice([{"int": v + 1}, {"int": -v - 1}, {"flt": v + 0.001}, {"rat": "1/3"}])
+    elif k == "flt":
+        rows[i][j] = {"flt": rng.choice([v + 0.125, -v, v + 1e-3, v * (1 + 1e-6) + 1e-7])}
+    elif k in ("expi", "cos", "sin", "nsin", "isin"):
+        rows[i][j] = {rng.choice([x for x in ("expi", "cos", "sin", "nsin") if x != k]): v}
+    else:
+        rows[i][j] = {"int": 5}
+    return ds2
 
 
 def gen_leaf(rng, numeric_only, pool, mode):
     """mode: 'safe' = custom gates get arguments the deserialiser can read (numbers, the first formal name,
     plain non-shadowing names); 'any' = any symbol of the pool"""
     bt = builtin_table()
-    if rng.random() < 0.72:
+    if rng.random() < 0.7:
         name = rng.choice(sorted(bt))
         nq, npar = bt[name]
-        ps = [gen_numeric(rng) if (numeric_only or rng.random() < 0.45) else gen_symbolic(rng, pool) for _ in range(npar)]
+        for _ in range(8):
+            ps = [gen_numeric(rng) if (numeric_only or rng.random() < 0.45) else gen_symbolic(rng, pool) for _ in range(npar)]
+            if not _f13_clash(ps) and not (any(_pspec_symbolic(p_) for p_ in ps) and _text_collision([build_param(p_) for p_ in ps])):
+                break
+        else:
+            ps = [gen_numeric(rng) for _ in range(npar)]
+        if npar > 1 and rng.random() < 0.25:        # repeated equal parameters
+            ps = [copy.deepcopy(ps[0]) for _ in ps]
         return {"t": "b", "name": name, "params": ps}, nq, None
     dn = rng.choice(sorted(DEFS))
     ordering = DEFS[dn]["ordering"]
@@ -385,16 +600,24 @@ def gen_leaf(rng, numeric_only, pool, mode):
         elif mode == "any":
             ps.append(gen_symbolic(rng, pool))
         else:
-            ok = [n for n in PLAIN if n not in ("a", "x")]
+            ok = [n for n in PLAIN if n not in ("a", "x", "p", "r", "t")]
             if i == 0 and parse_indexed(formal) is None:
                 ok = ok + [formal]
             ps.append(gen_symbolic(rng, ok))
+    if _f13_clash(ps) or (any(_pspec_symbolic(p_) for p_ in ps) and _text_collision([build_param(p_) for p_ in ps])):
+        ps = [gen_numeric(rng) for _ in ordering]
+    if len(ps) > 1 and rng.random() < 0.25:
+        ps = [copy.deepcopy(ps[0]) for _ in ps]
     return {"t": "c", "def": dn, "params": ps}, DEF_QUBITS[dn], dn
 
 
 def parse_indexed(s):
     m = re.search(r"^(.*)\[([0-9]+)\]$", s)
     return (m.group(1), m.group(2)) if m else None
+
+
+EXPONENTS = [2, 3, -1, 0, 0.5, 0.25, -0.5, 1.5, 2.0, 1e-05, 1e+16, 0.1, 7, -2, 2 ** 53 + 1, -(2 ** 60 + 1), 1e-09,
+             1 / 3, 0.30000000000000004, 0.0]
 
 
 def gen_gate(rng, max_depth, pool, mode):
@@ -404,37 +627,288 @@ def gen_gate(rng, max_depth, pool, mode):
     gs, nq, dn = gen_leaf(rng, numeric_only, pool, mode)
     for w in wrappers:
         if w == "ctrl":
-            k = rng.choice([1, 1, 2])
+            k = rng.choice([1, 1, 2, 3])
             gs, nq = {"t": "ctrl", "g": gs, "k": k}, nq + k
         elif w == "dag":
             gs = {"t": "dag", "g": gs}
         elif w == "exp":
             gs = {"t": "exp", "g": gs}
         else:
-            gs = {"t": "pow", "g": gs, "e": rng.choice([2, 3, -1, 0, 0.5, 0.25, -0.5, 1.5, 2.0, 1e-05, 1e+16, 0.1])}
+            gs = {"t": "pow", "g": gs, "e": rng.choice(EXPONENTS)}
     return gs, nq, dn
 
 
-def gen_circuit(rng, tier, mode="safe", max_depth=4):
+def gen_circuit(rng, tier, mode="safe", max_depth=4, n_ops=None, routes=True, unicode_ok=False):
     big = tier == "thorough"
-    n_ops = rng.choice([0, 1, 1, 2, 3, 4, 6] + ([9, 12] if big else []))
-    pool = sym_pool(rng)
+    if n_ops is None:
+        n_ops = rng.choice([0, 1, 1, 2, 3, 4, 6] + ([9, 12] if big else []))
+    pool = sym_pool(rng, unicode_ok)
+    _SUMS[0] = unicode_ok
     ops, defs, width = [], {}, 0
+    base = rng.choice([0, 0, 0, 0, 9, 37])          # multi-digit qubit indices
     for _ in range(n_ops):
+        if ops and rng.random() < 0.12:              # the same operation once more (same spec: equal gate objects)
+            o = copy.deepcopy(rng.choice(ops))
+            lf = _leaf(o["g"])
+            nums = [i for i, p_ in enumerate(lf["params"]) if not _pspec_symbolic(p_)]
+            if nums and rng.random() < 0.5:          # ... or one that differs in one number only (slightly / hash partner)
+                i = rng.choice(nums)
+                alt = _numeric_partner(rng, lf["params"][i], near=rng.random() < 0.5)
+                if alt is not None:
+                    lf["params"][i] = alt
+            ops.append(o)
+            continue
         gs, nq, dn = gen_gate(rng, max_depth, pool, mode)
-        if dn:
-            defs[dn] = DEFS[dn]
+        if dn and dn not in defs:
+            defs[dn] = def_variant(rng, DEFS[dn]) if rng.random() < 0.3 else DEFS[dn]
+            if rng.random() < 0.15:
+                taken = {d.get("gate_name", k) for k, d in defs.items()}
+                free = [x for x in ODD_NAMES if x not in taken]
+                others = [d.get("gate_name", k) for k, d in defs.items() if k != dn]
+                if others and rng.random() < 0.5 and others[0].swapcase() not in taken | {others[0]} and legal_custom_name(others[0].swapcase()):
+                    free = [others[0].swapcase()]          # two names of one circuit that differ in case only
+                defs[dn] = dict(defs[dn], gate_name=rng.choice(free))
+        if dn and rng.random() < 0.2:
+            for g_ in _walk_gate(gs):
+                if g_["t"] == "c":
+                    g_["fresh"] = True
         span = max(nq + rng.choice([0, 0, 1, 3]), nq)
-        q = rng.sample(range(span), nq)        # distinct, any order, gaps
+        q = [base + x for x in rng.sample(range(span), nq)]        # distinct, any order, gaps
         ops.append({"g": gs, "q": q})
         width = max(width, max(q) + 1)
-    n = rng.choice([None, None, width, width + rng.choice([1, 2, 5])])   # idle qubits
-    if not n:
+    n = rng.choice([None, None, width, width + rng.choice([1, 2, 5]), rng.choice([64, 100, 2 ** 53 + 1])])   # idle qubits
+    if not n or n < width:
         n = None
     cs = {"n": n, "ops": ops}
     if defs:
         cs["defs"] = defs
+    if routes and ops and rng.random() < 0.3:
+        cs["route"] = rng.choice(ROUTES)
+    _SUMS[0] = False
     return cs
+
+
+# ---------------------------------------------------------------- siblings: one component changed
+def _leaf(gs):
+    while "g" in gs:
+        gs = gs["g"]
+    return gs
+
+
+def _nq_of(gs):
+    n = 0
+    for g_ in _walk_gate(gs):
+        if g_["t"] == "ctrl":
+            n += g_["k"]
+        elif g_["t"] == "b":
+            n += builtin_table()[g_["name"]][0]
+        elif g_["t"] == "c":
+            n += DEF_QUBITS[g_["def"]]
+    return n
+
+
+def _numeric_partner(rng, p, near=False):
+    """a different number of the same kind that shortcuts confuse with `p` (near: within every equality tolerance)"""
+    (k, v), = p.items()
+    if near and k == "flt" and 0 < abs(v) < 1e200:
+        return {"flt": v + 1e-9 * max(1.0, abs(v))}
+    if k in ("int", "npi"):
+        return {k: {-1: -2, -2: -1, 0: 2 ** 61 - 1, 2 ** 61 - 1: 0}.get(v, v + 1)}
+    if k == "flt":
+        if v == 0:
+            return {"flt": rng.choice([1e-09, 5e-324])}
+        return {"flt": rng.choice([v + 1e-9 * max(1.0, abs(v)), v * (1 + 2 ** -40), -v])} if abs(v) < 1e200 else {"flt": -v}
+    if k == "sflt":
+        return {"sflt": v + 1e-9 if abs(v) < 1e200 else -v}
+    if k == "cx":
+        return {"cx": [v[0], v[1] + 1e-9]}
+    if k == "rat":
+        return {"rat": "7/3" if v != "7/3" else "1/2"}
+    if k == "pi":
+        return {"pi": "5/3" if v != "5/3" else "1/2"}
+    if k == "sy":
+        return {"sy": sorted(SY)[(sorted(SY).index(v) + 1) % len(SY)]}
+    return None
+
+
+def sibling(rng, cs, prefer=None):
+    """a copy of the circuit spec with exactly one component changed (None if nothing applies)"""
+    width = max([q + 1 for o in cs["ops"] for q in o["q"]] + [0])
+    kinds = ["n", "q", "p", "k", "e", "w", "d", "drop", "dup", "swap", "name"]
+    rng.shuffle(kinds)
+    if prefer:
+        kinds = [prefer] * 6 + kinds
+    for kind in kinds:
+        c2 = copy.deepcopy(cs)
+        c2.pop("route", None)
+        ops = c2["ops"]
+        o = rng.choice(ops) if ops else None
+        if kind == "n":
+            c2["n"] = (cs.get("n") or width) + 1
+        elif kind == "q" and o is not None:
+            if len(o["q"]) > 1:
+                o["q"] = o["q"][1:] + o["q"][:1]            # the same qubit set in another order
+            else:
+                o["q"] = [o["q"][0] + 1]
+                if c2.get("n") and c2["n"] < o["q"][0] + 1:
+                    c2["n"] = o["q"][0] + 1
+        elif kind == "p" and o is not None and _leaf(o["g"])["params"]:
+            lf = _leaf(o["g"])
+            i = rng.randrange(len(lf["params"]))
+            p = lf["params"][i]
+            (pk, pv), = p.items()
+            if pk == "sym":
+                alt = [x for x in PLAIN if x != pv and x not in ("a", "x", "p", "r", "t")]
+                new = {"sym": rng.choice(alt)}
+            elif _pspec_symbolic(p):
+                continue
+            else:
+                new = _numeric_partner(rng, p, near=prefer == "p")
+            if new is None:
+                continue
+            lf["params"][i] = new
+            if _f13_clash(lf["params"]) or in_text_collision_class(c2):
+                continue
+        elif kind == "k" and o is not None and any(g_["t"] == "ctrl" for g_ in _walk_gate(o["g"])):
+            g_ = [x for x in _walk_gate(o["g"]) if x["t"] == "ctrl"][0]
+            g_["k"] += 1
+            o["q"] = o["q"] + [max(o["q"]) + 1 if max(o["q"]) + 1 not in o["q"] else max(o["q"]) + 2]
+            if c2.get("n") and c2["n"] < max(o["q"]) + 1:
+                c2["n"] = max(o["q"]) + 1
+        elif kind == "e" and o is not None and any(g_["t"] == "pow" for g_ in _walk_gate(o["g"])):
+            g_ = [x for x in _walk_gate(o["g"]) if x["t"] == "pow"][0]
+            e = g_["e"]
+            g_["e"] = (e + 1) if isinstance(e, int) else (e + 1e-9 * max(1.0, abs(e)) if abs(e) < 1e15 else -e)
+        elif kind == "w" and o is not None and "g" in o["g"] and "g" in o["g"]["g"] and o["g"]["t"] != o["g"]["g"]["t"]:
+            outer, inner = o["g"], o["g"]["g"]
+            a = {k: v for k, v in outer.items() if k != "g"}
+            b = {k: v for k, v in inner.items() if k != "g"}
+            o["g"] = dict(b, g=dict(a, g=inner["g"]))           # the two outermost wrappers exchanged
+        elif kind == "d" and c2.get("defs"):
+            dn = rng.choice(sorted(c2["defs"]))
+            c2["defs"][dn] = def_variant(rng, c2["defs"][dn])
+        elif kind == "name" and c2.get("defs"):
+            dn = rng.choice(sorted(c2["defs"]))
+            cur = c2["defs"][dn].get("gate_name", dn)
+            taken = {d.get("gate_name", k) for k, d in c2["defs"].items()}
+            alt = [x for x in (cur.swapcase(), cur + "_", cur[:-1] or "Z") if x not in taken and x != cur and legal_custom_name(x)]
+            if not alt:
+                continue
+            c2["defs"][dn] = dict(c2["defs"][dn], gate_name=alt[0])
+        elif kind == "drop" and len(ops) > 1:
+            ops.pop(rng.randrange(len(ops)))
+        elif kind == "dup" and o is not None:
+            ops.insert(rng.randrange(len(ops) + 1), copy.deepcopy(o))
+        elif kind == "swap" and len(ops) > 1 and ops[0] != ops[-1]:
+            ops[0], ops[-1] = ops[-1], ops[0]
+        else:
+            continue
+        used = {_leaf(x["g"])["def"] for x in c2["ops"] if _leaf(x["g"])["t"] == "c"}
+        if c2.get("defs"):
+            c2["defs"] = {k: v for k, v in c2["defs"].items() if k in used}
+            if not c2["defs"]:
+                del c2["defs"]
+        c2["sib"] = kind
+        return c2
+    return None
+
+
+def gen_family(rng, tier):
+    """a base circuit and circuits that differ from it in exactly one component, all alive together and run
+    through one interleaved history (see run_impl)"""
+    for _ in range(20):
+        base = gen_circuit(rng, tier, "safe", max_depth=2, n_ops=rng.choice([1, 2, 3, 4]), routes=False)
+        if not in_text_collision_class(base):
+            break
+    members = [base]
+    for j in range(rng.choice([2, 3, 4])):
+        # the first sibling differs, if possible, in one number by less than every equality tolerance
+        sb = sibling(rng, rng.choice([base, base, members[-1]]), prefer=("p" if j == 0 else None))
+        if sb is not None and not in_text_collision_class(sb):
+            members.append(sb)
+    if rng.random() < 0.4:
+        members.append(copy.deepcopy(base))                   # an equal but distinct circuit object
+    rng.shuffle(members)
+    # one member is changed through its live `operations` list after it has been serialised once
+    if rng.random() < 0.7:
+        m = rng.choice(members)
+        width = max([q + 1 for o in m["ops"] for q in o["q"]] + [0])
+        how = rng.choice(["append", "append", "replace", "pop"])
+        if how == "pop" and m["ops"]:
+            m["late"] = {"how": "pop"}
+            m["n"] = m.get("n") or width
+        elif m["ops"]:
+            pool = sym_pool(rng)
+            for _ in range(10):
+                gs, nq, dn = gen_gate(rng, 1, pool, "safe")
+                n_eff = max(m.get("n") or 0, width)
+                if nq <= n_eff and (dn is None or dn not in (m.get("defs") or {}) or rng.random() < 0.5):
+                    break
+            else:
+                return {"kind": "family", "via": rng.choice(VIAS), "circs": members}
+            lo = min(q for o in m["ops"] for q in o["q"])
+            cand = [x for x in range(max(0, n_eff - 8), n_eff)] if n_eff - lo > 8 else list(range(n_eff))
+            if len(cand) >= nq:
+                op = {"g": gs, "q": rng.sample(cand, nq)}
+                if dn:                                       # a custom gate the circuit did not use before
+                    m.setdefault("defs", {}).setdefault(dn, DEFS[dn])
+                if not in_text_collision_class({"ops": [op]}):
+                    m["n"] = n_eff
+                    m["late"] = {"how": how, "op": op, "at": rng.randrange(len(m["ops"]))} if how == "replace" else {"how": "append", "op": op}
+    return {"kind": "family", "via": rng.choice(VIAS), "circs": members}
+
+
+VIAS = ["json", "json", "file", "stream", "pathlib", "fileobj"]
+
+
+def gen_meaning_siblings(rng):
+    """the same expression TEXT with two meanings in one process: `2*E` is twice Euler's number in a custom matrix
+    and twice the symbol E in a gate parameter (likewise I, pi); both orders, alone and together"""
+    nm, dn, text = rng.choice([("E", "Kc", "2*E"), ("I", "Ki", "I"), ("pi", "Kp", "3*pi")])
+    coef = {"E": 2, "I": 1, "pi": 3}[nm]
+    sym_op = {"g": _b(rng.choice(["RX", "RZ", "PHASE"]), {"lin": {"const": None, "terms": [[{"int": coef}, nm]]}} if coef != 1 else {"sym": nm}), "q": [0]}
+    cst_op = {"g": {"t": "c", "def": dn, "params": [{"flt": 0.25}] * len(DEFS[dn]["ordering"])}, "q": [1]}
+    num_op = {"g": _b("RY", {"sy": text}), "q": [2]}
+    a = {"n": None, "ops": [sym_op]}
+    b_ = {"n": None, "defs": {dn: DEFS[dn]}, "ops": [cst_op]}
+    c_ = {"n": None, "defs": {dn: DEFS[dn]}, "ops": rng.sample([sym_op, cst_op, num_op], 3)}
+    members = [a, b_, c_, {"n": None, "ops": [num_op]}]
+    rng.shuffle(members)
+    return {"kind": "family", "via": rng.choice(VIAS), "circs": members}
+
+
+def gen_conflict(rng):
+    """two DIFFERENT definitions under one name in one circuit (to_dict refuses: ValueError), not next to each
+    other, differing clearly or only slightly (but by more than the library's equality tolerance)"""
+    dn = rng.choice(["Const", "U1", "Swp", "F3", "Ki", "Kc"])
+    d1 = DEFS[dn]
+    d2 = None
+    if rng.random() < 0.6:
+        d2 = copy.deepcopy(d1)
+        delta = rng.choice([1e-3, 1e-5, 1e-6, 1e-7, 3e-8])
+        i, j = rng.randrange(len(d1["matrix"])), rng.randrange(len(d1["matrix"]))
+        (ek, ev), = d1["matrix"][i][j].items()
+        if ek in ("int", "flt"):
+            d2["matrix"][i][j] = {"flt": ev + delta}
+        else:
+            d2 = None
+    if d2 is None:
+        d2 = def_variant(rng, d1)
+    args = [{"flt": 0.5}] * len(d1["ordering"])
+    nq = DEF_QUBITS[dn]
+    mid = [{"g": _b("H"), "q": [0]}, {"g": {"t": "c", "def": "Ki", "params": []}, "q": [1]}][: rng.randrange(0, 3)]
+    wrap = rng.choice([None, "dag", "ctrl"])
+    g2 = {"t": "c", "def": "other", "params": args}
+    q2 = list(range(nq))
+    if wrap == "dag":
+        g2 = {"t": "dag", "g": g2}
+    elif wrap == "ctrl":
+        g2, q2 = {"t": "ctrl", "g": g2, "k": 1}, list(range(nq + 1))
+    ops = [{"g": {"t": "c", "def": dn, "params": args}, "q": list(range(nq))}] + mid + [{"g": g2, "q": q2}]
+    defs = {dn: d1, "other": dict(d2, gate_name=dn)}
+    if len(mid) == 2:
+        defs["Ki"] = DEFS["Ki"]
+    return {"kind": "circuit", "via": "json", "conflict": True, "circ": {"n": None, "defs": defs, "ops": ops}}
 
 
 def _b(name, *ps):
@@ -496,6 +970,99 @@ def corpus():
             {"g": {"t": "c", "def": "U1", "params": [{"flt": 0.5}]}, "q": [1]},
             {"g": {"t": "ctrl", "g": {"t": "c", "def": "U12", "params": [{"int": 2}]}, "k": 1}, "q": [1, 0]}]}},
         {"kind": "symtab", "names": ["theta", "v[3]", "v[12]", "beta", "w[0]"]},
+        {"kind": "symtab", "names": ["q1[10]", "b7[2]", "_p[1]", "v[100]", "_t", "pi"]},
+        # ---- falsy but valid: parameter 0 / 0.0 / -0.0 / sympy 0, exponent 0, qubit 0, custom argument 0
+        {"kind": "circuit", "via": "json", "circ": {"n": None, "defs": {"U1": DEFS["U1"], "Ph2": DEFS["Ph2"]}, "ops": [
+            {"g": _b("RX", {"int": 0}), "q": [0]}, {"g": _b("RZ", {"flt": 0.0}), "q": [0]}, {"g": _b("PHASE", {"flt": -0.0}), "q": [0]},
+            {"g": _b("U3", {"int": 0}, {"int": 0}, {"int": 0}), "q": [0]}, {"g": _b("U3", {"int": 0}, {"flt": 0.5}, {"flt": 0.0}), "q": [0]},
+            {"g": _b("RY", {"rat": "0"}), "q": [0]}, {"g": _b("RY", {"sflt": 0.0}), "q": [0]},
+            {"g": {"t": "pow", "g": _b("X"), "e": 0}, "q": [0]}, {"g": {"t": "pow", "g": _b("T"), "e": 0.0}, "q": [0]},
+            {"g": {"t": "c", "def": "U1", "params": [{"int": 0}]}, "q": [0]},
+            {"g": {"t": "c", "def": "Ph2", "params": [{"int": 0}, {"flt": 0.0}]}, "q": [0]},
+            {"g": {"t": "ctrl", "g": _b("XX", {"int": 0}), "k": 1}, "q": [2, 0, 1]}]}},
+        # ---- numbers whose hashes collide, equal repeated parameters
+        {"kind": "circuit", "via": "file", "circ": {"n": None, "defs": {"Ph2": DEFS["Ph2"]}, "ops": [
+            {"g": _b("RX", {"int": -1}), "q": [0]}, {"g": _b("RX", {"int": -2}), "q": [0]}, {"g": _b("RX", {"int": 0}), "q": [0]},
+            {"g": _b("RX", {"int": 2 ** 61 - 1}), "q": [0]}, {"g": _b("RX", {"flt": -1.0}), "q": [0]}, {"g": _b("RX", {"flt": -2.0}), "q": [0]},
+            {"g": _b("RX", {"rat": "-1"}), "q": [0]}, {"g": _b("RX", {"rat": "-2"}), "q": [0]},
+            {"g": _b("U3", {"int": -1}, {"int": -2}, {"int": -1}), "q": [1]}, {"g": _b("U3", {"int": -2}, {"int": -1}, {"int": -1}), "q": [1]},
+            {"g": _b("U3", {"sym": "theta"}, {"sym": "theta"}, {"sym": "phi"}), "q": [1]},
+            {"g": _b("U3", {"flt": 0.5}, {"flt": 0.5}, {"flt": 0.5}), "q": [1]},
+            {"g": {"t": "c", "def": "Ph2", "params": [{"sym": "theta"}, {"sym": "theta"}]}, "q": [0]},
+            {"g": {"t": "c", "def": "Ph2", "params": [{"int": -1}, {"int": -2}]}, "q": [0]},
+            {"g": {"t": "c", "def": "Ph2", "params": [{"int": -2}, {"int": -1}]}, "q": [0]}]}},
+        # ---- magnitudes: below every absolute tolerance, denormal, huge next to tiny, complex with a small imaginary part
+        {"kind": "circuit", "via": "json", "circ": {"n": None, "defs": {"Tiny": DEFS["Tiny"]}, "ops": [
+            {"g": _b("RX", {"flt": 1e-09}), "q": [0]}, {"g": _b("RX", {"flt": -3e-11}), "q": [0]}, {"g": _b("RX", {"flt": 5e-324}), "q": [0]},
+            {"g": _b("RX", {"flt": 1e-300}), "q": [0]}, {"g": _b("RX", {"cx": [1.0, 1e-07]}), "q": [0]}, {"g": _b("RX", {"cx": [1000.0, 1e-06]}), "q": [0]},
+            {"g": _b("RX", {"cx": [0.0, 1e-09]}), "q": [0]}, {"g": _b("RX", {"cx": [2.0, 3.0]}), "q": [0]}, {"g": _b("RX", {"sflt": 1e-09}), "q": [0]},
+            {"g": _b("RZ", {"lin": {"const": {"flt": 3e-12}, "terms": [[{"flt": 1e+10}, "theta"], [{"flt": 1e-09}, "phi"]]}}), "q": [0]},
+            {"g": _b("RZ", {"lin": {"const": {"flt": 1e+10}, "terms": [[{"flt": -7e-10}, "theta"]]}}), "q": [0]},
+            {"g": {"t": "c", "def": "Tiny", "params": [{"flt": 1e-09}]}, "q": [1]},
+            {"g": {"t": "c", "def": "Tiny", "params": [{"sym": "theta"}]}, "q": [1]}]}},
+        # ---- exponents / widths beyond 2**53, many controls, multi-digit qubit indices on a wide register
+        {"kind": "circuit", "via": "stream", "circ": {"n": 2 ** 53 + 1, "ops": [
+            {"g": {"t": "pow", "g": _b("T"), "e": 2 ** 53 + 1}, "q": [0]}, {"g": {"t": "pow", "g": _b("S"), "e": -(2 ** 60 + 1)}, "q": [0]},
+            {"g": {"t": "pow", "g": _b("S"), "e": 1e-09}, "q": [0]}, {"g": {"t": "pow", "g": _b("S"), "e": 0.30000000000000004}, "q": [0]},
+            {"g": {"t": "ctrl", "g": _b("X"), "k": 4}, "q": [41, 12, 3, 100, 7]},
+            {"g": {"t": "ctrl", "g": {"t": "ctrl", "g": _b("SWAP"), "k": 1}, "k": 2}, "q": [10, 11, 12, 2, 1]},
+            {"g": _b("CNOT"), "q": [41, 12]}, {"g": _b("CNOT"), "q": [12, 41]}]}},
+        {"kind": "circuit", "via": "pathlib", "circ": {"n": 100, "ops": [{"g": _b("CNOT"), "q": [99, 10]}, {"g": _b("H"), "q": [64]}]}},
+        {"kind": "circuit", "via": "fileobj", "circ": {"n": 65, "ops": [{"g": _b("RX", {"sym": "q1[10]"}), "q": [64]},
+            {"g": _b("RY", {"lin": {"const": None, "terms": [[{"int": 2}, "b7[2]"], [{"int": 3}, "_p[1]"], [{"int": 1}, "v[100]"]]}}), "q": [33]}]}},
+        # ---- exotic but legal numbers and bound variables
+        {"kind": "circuit", "via": "json", "circ": {"n": None, "ops": [
+            {"g": _b("RX", {"sy": "cbrt-1"}), "q": [0]}, {"g": _b("RX", {"sy": "I/2"}), "q": [0]}, {"g": _b("RX", {"sy": "golden"}), "q": [0]},
+            {"g": _b("RX", {"sy": "E"}), "q": [0]}, {"g": _b("RX", {"sy": "I"}), "q": [0]}, {"g": _b("RX", {"sy": "pi"}), "q": [0]},
+            {"g": _b("RX", {"lin": {"const": None, "terms": [[{"sy": "I/2"}, "theta"]]}}), "q": [0]}]}},
+        {"kind": "circuit", "via": "json", "oracle_only": True, "circ": {"n": None, "ops": [
+            {"g": _b("RX", {"sum": [{"int": 2}, "theta"]}), "q": [0]}, {"g": _b("RX", {"sum": [{"rat": "1/2"}, "gamma"]}), "q": [0]},
+            {"g": _b("U3", {"sum": [{"flt": 0.1}, "v[3]"]}, {"sym": "k"}, {"int": 1}), "q": [0]}]}},
+        # ---- a plain symbol in one gate and an indexed symbol with that base in ANOTHER gate (the table is per gate);
+        #      the symbol E in one gate and Euler's number in another
+        {"kind": "circuit", "via": "json", "circ": {"n": None, "ops": [
+            {"g": _b("RX", {"sym": "w"}), "q": [0]}, {"g": _b("RY", {"sym": "w[2]"}), "q": [0]},
+            {"g": _b("U3", {"sym": "q1[10]"}, {"lin": {"const": None, "terms": [[{"int": 2}, "q1[10]"], [{"int": 1}, "v[0]"]]}}, {"int": 1}), "q": [1]},
+            {"g": {"t": "ctrl", "g": _b("PHASE", {"lin": {"const": {"int": 1}, "terms": [[{"int": 3}, "q1"]]}}), "k": 1}, "q": [0, 1]},
+            {"g": _b("RX", {"lin": {"const": None, "terms": [[{"int": 2}, "E"]]}}), "q": [0]}, {"g": _b("RZ", {"sy": "2*E"}), "q": [0]}]}},
+        # ---- identifiers that are not ASCII (the model's scanner is ASCII)
+        {"kind": "circuit", "via": "file", "oracle_only": True, "circ": {"n": None, "ops": [
+            {"g": _b("RX", {"sym": "θ"}), "q": [0]}, {"g": _b("U3", {"lin": {"const": None, "terms": [[{"int": 2}, "θ"], [{"flt": 0.5}, "φ2"]]}}, {"sym": "φ2"}, {"int": 1}), "q": [0]}]}},
+        # ---- definitions whose names differ in case only / are close to the markers; equal but distinct definition objects
+        {"kind": "circuit", "via": "json", "circ": {"n": None, "defs": {"U1": DEFS["U1"], "U12": dict(DEFS["U12"], gate_name="u1"),
+                                                                         "Const": dict(DEFS["Const"], gate_name="control"), "Ki": dict(DEFS["Ki"], gate_name="Daggered")}, "ops": [
+            {"g": {"t": "c", "def": "U12", "params": [{"flt": 0.5}]}, "q": [0]}, {"g": {"t": "c", "def": "U1", "params": [{"flt": 0.5}]}, "q": [0]},
+            {"g": {"t": "dag", "g": {"t": "c", "def": "Const", "params": []}}, "q": [0]}, {"g": {"t": "ctrl", "g": {"t": "c", "def": "Ki", "params": []}, "k": 1}, "q": [0, 1]},
+            {"g": {"t": "c", "def": "U1", "fresh": True, "params": [{"flt": 0.25}]}, "q": [1]}]}},
+        # ---- lists: empty, one empty circuit, only gate-less circuits, the same / nearly the same circuit several times
+        {"kind": "circuitset", "via": "json", "circs": []},
+        {"kind": "circuitset", "via": "file", "circs": [{"n": None, "ops": []}]},
+        {"kind": "circuitset", "via": "stream", "circs": [{"n": None, "ops": []}, {"n": 3, "ops": []}, {"n": None, "ops": []}]},
+        {"kind": "circuitset", "via": "json", "circs": [{"n": None, "ops": [{"g": _b("RX", {"flt": 0.5}), "q": [0]}]},
+            {"n": None, "ops": [{"g": _b("RX", {"flt": 0.5 + 1e-09}), "q": [0]}]}, {"n": None, "ops": [{"g": _b("RX", {"flt": 0.5}), "q": [0]}]},
+            {"n": 2, "ops": [{"g": _b("RX", {"flt": 0.5}), "q": [0]}]}, {"n": None, "ops": [{"g": _b("RX", {"int": -1}), "q": [0]}]},
+            {"n": None, "ops": [{"g": _b("RX", {"int": -2}), "q": [0]}]}]},
+        # the list of seeded change C05_m2 through the file and the stream path as well
+        {"kind": "circuitset", "via": "file", "circs": [
+            {"n": None, "defs": {"U1": DEFS["U1"]}, "ops": [{"g": {"t": "c", "def": "U1", "params": [{"flt": 0.5}]}, "q": [0]}]},
+            {"n": None, "defs": {"U1b": dict(DEFS["U12"], gate_name="U1")}, "ops": [{"g": {"t": "c", "def": "U1b", "params": [{"flt": 0.5}]}, "q": [1]}]}]},
+        {"kind": "circuitset", "via": "stream", "circs": [
+            {"n": None, "defs": {"U1b": dict(DEFS["U12"], gate_name="U1")}, "ops": [{"g": {"t": "c", "def": "U1b", "params": [{"flt": 0.5}]}, "q": [1]}]},
+            {"n": None, "defs": {"U1": DEFS["U1"]}, "ops": [{"g": {"t": "ctrl", "g": {"t": "c", "def": "U1", "params": [{"flt": 0.5}]}, "k": 1}, "q": [0, 1]}]}]},
+        # ---- lists of 64 and more circuits
+        {"kind": "circuitset", "via": "json", "circs": [{"n": None, "ops": [{"g": _b("RX", {"int": i}), "q": [i % 3]}]} for i in range(64)]},
+        {"kind": "circuitset", "via": "file", "circs": [{"n": None, "ops": [{"g": _b("RZ", {"rat": f"{i}/7"}), "q": [0]}] if i % 5 else []} for i in range(97)]},
+        # ---- a long circuit
+        {"kind": "circuit", "via": "json", "circ": {"n": None, "ops": [{"g": _b("RX", {"int": i}), "q": [i % 4]} if i % 3 else {"g": _b("CNOT"), "q": [i % 4, (i + 1) % 4]} for i in range(130)]}},
+        # FINDING: two definitions under one name that differ by less than the equality tolerance (1e-8) are taken
+        # for one: the second gate comes back with the first gate's definition
+        {"kind": "circuit", "via": "json", "conflict": True, "within_tolerance": True, "oracle_only": True, "circ": {"n": None,
+            "defs": {"Const": DEFS["Const"], "other": {"gate_name": "Const", "ordering": [], "matrix": [[{"flt": 0.6}, {"flt": 0.8}], [{"flt": -0.8}, {"flt": 0.600000003}]]}}, "ops": [
+            {"g": {"t": "c", "def": "Const", "params": []}, "q": [0]}, {"g": _b("X"), "q": [0]}, {"g": {"t": "c", "def": "other", "params": []}, "q": [1]}]}},
+        # the same with a difference above the tolerance, and with a third operation in between: refused
+        {"kind": "circuit", "via": "json", "conflict": True, "circ": {"n": None,
+            "defs": {"Const": DEFS["Const"], "Ki": DEFS["Ki"], "other": {"gate_name": "Const", "ordering": [], "matrix": [[{"flt": 0.6}, {"flt": 0.8}], [{"flt": -0.8}, {"flt": 0.6000001}]]}}, "ops": [
+            {"g": {"t": "c", "def": "Const", "params": []}, "q": [0]}, {"g": {"t": "c", "def": "Ki", "params": []}, "q": [0]}, {"g": {"t": "c", "def": "other", "params": []}, "q": [1]}]}},
         {"kind": "dict", "dict": {"n_qubits": 1, "operations": [{"type": "gate_operation", "gate": {"name": "Nope"}, "qubit_indices": [0]}]}},
         {"kind": "dict", "dict": {"n_qubits": 2, "operations": [{"type": "gate_operation", "qubit_indices": [0, 1], "gate": {
             "name": "Control", "wrapped_gate": {"name": "X"}, "num_control_qubits": 0}}]}},
@@ -573,24 +1140,48 @@ def generate(rng, tier):
         nq, npar = builtin_table()[name]
         leaf = {"t": "b", "name": name, "params": [gen_numeric(rng) for _ in range(npar)]}
         sym = {"t": "b", "name": name, "params": [gen_symbolic(rng, sym_pool(rng)) for _ in range(npar)]}
+        if _f13_clash(sym["params"]):
+            sym = {"t": "b", "name": name, "params": [{"sym": "theta"} for _ in range(npar)]}
         w = {"t": rng.choice(["dag", "exp"]), "g": {"t": "pow", "g": leaf, "e": rng.choice([2, 0.5])}}
-        cases.append({"kind": "circuit", "via": "json" if i % 2 else "file", "circ": {"n": nq + 2, "ops": [
+        cases.append({"kind": "circuit", "via": VIAS[i % len(VIAS)], "circ": {"n": nq + 2, "ops": [
             {"g": leaf, "q": list(range(nq))}, {"g": w, "q": list(range(nq))[::-1]},
             {"g": {"t": "ctrl", "g": {"t": "dag", "g": sym}, "k": 1}, "q": [nq] + list(range(nq))}]}})
-    for _ in range(700 if big else 110):
-        cases.append({"kind": "circuit", "via": rng.choice(["json", "json", "file", "stream"]),
-                      "circ": gen_circuit(rng, tier, "safe")})
-    for _ in range(160 if big else 30):           # custom gates with arbitrary symbolic arguments (repaired finding's class)
+    for _ in range(700 if big else 100):
+        cases.append({"kind": "circuit", "via": rng.choice(VIAS), "circ": gen_circuit(rng, tier, "safe")})
+    for _ in range(160 if big else 24):           # custom gates with arbitrary symbolic arguments (repaired finding's class)
         cases.append({"kind": "circuit", "via": "json", "circ": gen_circuit(rng, tier, "any", max_depth=2)})
+    for _ in range(20 if big else 3):             # identifiers that are not ASCII: the oracle alone
+        cases.append({"kind": "circuit", "via": rng.choice(VIAS), "oracle_only": True,
+                      "circ": gen_circuit(rng, tier, "any", max_depth=1, n_ops=3, unicode_ok=True)})
     for _ in range(80 if big else 12):
-        cases.append({"kind": "circuitset", "via": rng.choice(["json", "file"]),
+        cases.append({"kind": "circuitset", "via": rng.choice(VIAS),
                       "circs": [gen_circuit(rng, tier, "safe", max_depth=2) for _ in range(rng.randrange(0, 4))]})
+    for _ in range(6 if big else 1):              # long lists (chunked / parallel paths)
+        n = rng.choice([64, 65, 96, 128, 70])
+        cases.append({"kind": "circuitset", "via": rng.choice(VIAS),
+                      "circs": [gen_circuit(rng, tier, "safe", max_depth=1, n_ops=rng.choice([0, 1, 1, 2])) for _ in range(n)]})
+    for _ in range(6 if big else 1):              # long circuits
+        cases.append({"kind": "circuit", "via": rng.choice(VIAS),
+                      "circ": gen_circuit(rng, tier, "safe", max_depth=1, n_ops=rng.choice([64, 70, 129]))})
+    for _ in range(160 if big else 26):
+        cases.append(gen_family(rng, tier))
+    for _ in range(24 if big else 4):
+        cases.append(gen_meaning_siblings(rng))
+    for _ in range(40 if big else 6):
+        cases.append(gen_conflict(rng))
     for _ in range(200 if big else 40):
-        names = rng.sample(PLAIN + SHADOW, rng.randrange(0, 5)) + rng.sample(INDEXED, rng.randrange(0, 5))
+        names = rng.sample(INDEXED, rng.randrange(0, 5))
+        bases = {parse_indexed(n)[0] for n in names}
+        names += rng.sample([n for n in PLAIN + SHADOW if n not in bases], rng.randrange(0, 5))
         rng.shuffle(names)
         cases.append({"kind": "symtab", "names": names})
     for _ in range(300 if big else 60):
         cases.append(gen_malformed(rng))
+    for c in cases:                               # the known text-ambiguity class: the oracle alone (the model reads
+        if c["kind"] in ("circuit", "circuitset", "family") and not c.get("conflict") \
+                and any(in_text_collision_class(cs) for cs in _circ_specs(c)):      # symbols by table lookup only)
+            c["oracle_only"] = True
+    rng.shuffle(cases)                            # histories interleave: every case runs in one process
     return cases
 
 
@@ -603,11 +1194,14 @@ def _walk_gate(gs):
 
 def _pspec_symbolic(p):
     (k, v), = p.items()
-    return k in ("sym", "lin", "prod", "fn")
+    return k in ("sym", "lin", "prod", "fn", "sum")
 
 
 def _circ_specs(c):
-    return [c["circ"]] if c["kind"] == "circuit" else c.get("circs", [])
+    if c["kind"] == "circuit":
+        return [c["circ"]]
+    specs = list(c.get("circs", []))
+    return specs + [late_applied(cs) for cs in specs if cs.get("late")]
 
 
 def nontrivial(c):
@@ -645,26 +1239,42 @@ def _needs_table(gs, defs):
     return False
 
 
-def _text_collision(p):
-    """the printed expression uses, besides the symbols, an identifier equal to one of its symbol names (the
-    constant pi next to a symbol called pi, sin(...) of a symbol called sin), or number literals next to a
-    symbol called Integer / Float (the names sympify's own number wrapping calls): the text is ambiguous"""
+def _text_collision(params):
+    """the printed parameters of ONE gate (they are all read against the gate's free symbols) use, besides the
+    symbols, an identifier equal to one of the symbol names (the constant pi next to a symbol called pi - in the
+    same or in another parameter -, sin(...) next to a symbol called sin, the `j` of a Python complex number next to
+    a symbol called I), or number literals next to a symbol called Integer / Float, or a name the parser wraps as
+    Symbol('k') next to a symbol called Symbol (the names sympify's own wrapping calls): the text is ambiguous"""
     sympy = _m()[0]
-    if not isinstance(p, sympy.Expr) or not p.free_symbols:
+    names, others, digits = set(), set(), False
+    for p in params:
+        if isinstance(p, complex):
+            others.add("I")
+            digits = True
+            continue
+        if not isinstance(p, sympy.Expr):
+            digits = digits or _is_number(p)
+            continue
+        fs = sorted(p.free_symbols, key=str)
+        names |= {str(x) for x in fs}
+        stripped = str(p.xreplace({x: sympy.Symbol(f"__{i}__") for i, x in enumerate(fs)}))
+        stripped = re.sub(r"__\d+__", " ", stripped)
+        others |= set(re.findall(r"[A-Za-z_][A-Za-z_0-9]*", stripped))
+        digits = digits or bool(re.search(r"\d", stripped))
+    if not names:
         return False
-    names = {str(x) for x in p.free_symbols}
-    stripped = str(p.xreplace({x: sympy.Symbol(f"__{i}__") for i, x in enumerate(sorted(p.free_symbols, key=str))}))
-    stripped = re.sub(r"__\d+__", " ", stripped)
-    others = set(re.findall(r"[A-Za-z_][A-Za-z_0-9]*", stripped))
     if names & others:
         return True
-    return bool(names & {"Integer", "Float"}) and bool(re.search(r"\d", stripped))
+    if "Symbol" in names and others - (_sympy_ns()[0] | _sympy_ns()[1]):
+        return True           # a bound variable is wrapped as Symbol('k') by the parser - through the same table
+    return bool(names & {"Integer", "Float"}) and digits
 
 
 def in_text_collision_class(cs):
     for o in cs["ops"]:
         for gs in _walk_gate(o["g"]):
-            if gs["t"] in ("b", "c") and any(_pspec_symbolic(p) and _text_collision(build_param(p)) for p in gs["params"]):
+            if gs["t"] in ("b", "c") and any(_pspec_symbolic(p) for p in gs["params"]) \
+                    and _text_collision([build_param(p) for p in gs["params"]]):
                 return True
     return False
 
@@ -675,26 +1285,162 @@ def in_finding_class(cs):
 
 # ---------------------------------------------------------------- implementation side
 def _roundtrip(obj, via, is_set):
-    """serialise -> real JSON text / file / stream -> deserialise; returns (dict, deserialised object)"""
+    """serialise -> real JSON text / file (path string, pathlib path, file object opened by the caller) / stream
+    -> deserialise; returns (dict, deserialised object)"""
     _, _, _, _, _, sd = _m()
     d = sd.to_dict(obj)
+    save = sd.save_circuitset if is_set else sd.save_circuit
+    load = sd.load_circuitset if is_set else sd.load_circuit
     if via == "json":
         d2 = json.loads(json.dumps(d))
         back = sd.circuitset_from_dict(d2) if is_set else sd.circuit_from_dict(d2)
     elif via == "stream":
         buf = io.StringIO()
-        (sd.save_circuitset if is_set else sd.save_circuit)(obj, buf)
+        save(obj, buf)
         buf.seek(0)
-        back = (sd.load_circuitset if is_set else sd.load_circuit)(buf)
+        back = load(buf)
     else:
         fd, path = tempfile.mkstemp(suffix=".json", prefix="c05_")
         os.close(fd)
         try:
-            (sd.save_circuitset if is_set else sd.save_circuit)(obj, path)
-            back = (sd.load_circuitset if is_set else sd.load_circuit)(path)
+            if via == "pathlib":
+                import pathlib
+                save(obj, pathlib.Path(path))
+                back = load(pathlib.Path(path))
+            elif via == "fileobj":
+                with open(path, "w") as f:
+                    save(obj, f)
+                with open(path) as f:
+                    back = load(f)
+            else:
+                save(obj, path)
+                back = load(path)
         finally:
             os.unlink(path)
     return d, back
+
+
+_RAISES = (KeyError, ValueError, TypeError, AttributeError, IndexError, NotImplementedError)
+
+
+def _scribble(d):
+    """the caller does what it likes with the dictionary `to_dict` gave it"""
+    try:
+        d["n_qubits"] = d.get("n_qubits", 0) + 3
+        junk = {"type": "gate_operation", "gate": {"name": "H"}, "qubit_indices": [0]}
+        ops = d.get("operations")
+        if ops:
+            g0 = ops[0]["gate"]
+            while "wrapped_gate" in g0:
+                g0["name"] = "Control"
+                g0["num_control_qubits"] = 7
+                g0["exponent"] = 9
+                g0 = g0["wrapped_gate"]
+            g0["name"] = "Z"
+            if "params" in g0:
+                g0["params"][:] = ["1234"] * len(g0["params"])
+            g0.pop("free_symbols", None)
+            ops[0]["qubit_indices"][:] = [5]
+            ops.reverse()
+            ops.append(junk)
+        else:
+            d["operations"] = [junk]
+        for df in d.get("custom_gate_definitions", []):
+            df["matrix"][0][0] = "17"
+            df["params_ordering"].append("zz")
+            df["gate_name"] += "x"
+        d.pop("custom_gate_definitions", None)
+    except Exception:
+        pass
+
+
+def _run_family(c, out):
+    """one interleaved history over circuits that differ in one component and are all alive together:
+    A  every circuit serialised (in order), the JSON texts deserialised in reverse order;
+    B  the dictionaries handed out are scribbled on, every circuit serialised again -> deserialised;
+    C  one parsed dictionary deserialised twice, the first result appended to / reversed in between;
+    D  a circuit changed through its live `operations` list after A-C -> serialised / deserialised again;
+    F  one file path written and read again for every circuit and for two lists;
+    E  all of them as one list through save/load (this is what the model answers too).
+    Every (original, deserialised) pair is then put to the property's sentences by the oracle."""
+    sympy, np, cq, bg, g, sd = _m()
+    specs = c["circs"]
+    objs = [build_circuit(cs) for cs in specs]
+    # never-serialised twins are the references (also for what a circuit was before its late change)
+    ref = [build_circuit({k: v for k, v in cs.items() if k != "late"}) for cs in specs]
+    pairs = []
+    state = {"phase": "A"}
+    try:
+        dA = [sd.to_dict(o) for o in objs]
+        tA = [json.dumps(d) for d in dA]
+        for i in reversed(range(len(objs))):
+            pairs.append((f"circuit[{i}] (first serialisation)", ref[i], sd.circuit_from_dict(json.loads(tA[i])), True))
+        state["phase"] = "B"
+        for d in dA:
+            _scribble(d)
+        tB = [json.dumps(sd.to_dict(o)) for o in objs]
+        for i in range(len(objs)):
+            pairs.append((f"circuit[{i}] (serialised again after the caller changed the first dictionary)", ref[i],
+                          sd.circuit_from_dict(json.loads(tB[i])), False))
+        state["phase"] = "C"
+        junk = cq.GateOperation(bg.H, (0,))
+        for i in range(len(objs)):
+            pd = json.loads(tB[i])
+            b1 = sd.circuit_from_dict(pd)
+            try:
+                b1.operations.append(junk)
+                b1.operations.reverse()
+            except Exception:
+                pass
+            pairs.append((f"circuit[{i}] (same dictionary deserialised a second time, the first result appended to in between)",
+                          ref[i], sd.circuit_from_dict(pd), False))
+        state["phase"] = "D"
+        ref = list(ref)
+        for i, cs in enumerate(specs):
+            if cs.get("late"):
+                apply_late(objs[i], cs)
+                ref[i] = build_circuit({k: v for k, v in cs.items() if k != "late"})
+                apply_late(ref[i], cs)
+                d = sd.to_dict(objs[i])
+                pairs.append((f"circuit[{i}] (after its operations list was changed: {cs['late']['how']})", ref[i],
+                              sd.circuit_from_dict(json.loads(json.dumps(d))), True))
+        state["phase"] = "F"
+        fd, path = tempfile.mkstemp(suffix=".json", prefix="c05_")
+        os.close(fd)
+        try:
+            for i in range(len(objs)):
+                sd.save_circuit(objs[i], path)
+                pairs.append((f"circuit[{i}] (saved to and loaded from a path used before)", ref[i], sd.load_circuit(path), False))
+            for sub in ([0], list(range(len(objs)))[::-1]):
+                sd.save_circuitset([objs[i] for i in sub], path)
+                got = sd.load_circuitset(path)
+                if len(got) != len(sub):
+                    out["len2"] = len(got)
+                for i, b in zip(sub, got):
+                    pairs.append((f"circuit[{i}] (in a list saved to and loaded from a path used before)", ref[i], b, False))
+        finally:
+            os.unlink(path)
+        state["phase"] = "E"
+        out["ast"] = [circuit_ast(o) for o in objs]
+        d, backs = _roundtrip(objs, c["via"], True)
+        out["dict"] = d
+        if len(backs) != len(objs):
+            out["len2"] = len(backs)
+        for i, b in enumerate(backs[: len(objs)]):
+            pairs.append((f"circuit[{i}] (as element of the list)", ref[i], b, False))
+        try:
+            out["ast2"] = [circuit_ast(b) for b in backs]
+        except (Junk, AttributeError, TypeError) as e:
+            out["err2"] = "err:junk"
+            out["msg"] = str(e)[:120]
+    except _RAISES as e:
+        out["phase_err"] = state["phase"]
+        out["err2"] = _exc_name(e)
+        out["msg"] = f"phase {state['phase']}: {type(e).__name__}: {e}"[:200]
+        if "ast" not in out:
+            out["ast"] = []
+        out.setdefault("dict", None)
+    return pairs
 
 
 def _exc_name(e):
@@ -742,8 +1488,16 @@ def run_impl(c):
             return {"ast2": [circuit_ast(back)]}
         except Junk as e:
             return {"err2": "err:junk", "msg": str(e)}
-    specs = _circ_specs(c)
+    if k == "family":
+        out = {}
+        pairs = _run_family(c, out)
+        _LIVE[key] = ("pairs", pairs)
+        return out
+    specs = [c["circ"]] if k == "circuit" else c["circs"]
     is_set = k == "circuitset"
+    # the reference of every comparison is a twin that is never handed to the library (a serialiser that changes
+    # its argument must not take the reference with it)
+    refs = [build_circuit(cs) for cs in specs]
     objs = [build_circuit(cs) for cs in specs]
     obj = objs if is_set else objs[0]
     out = {"ast": [circuit_ast(o) for o in objs]}
@@ -766,7 +1520,7 @@ def run_impl(c):
     except (Junk, AttributeError, TypeError) as e:
         out["err2"] = "err:junk"
         out["msg"] = str(e)[:120]
-    _LIVE[key] = (objs, backs)
+    _LIVE[key] = (refs, backs)
     return out
 
 
@@ -777,7 +1531,7 @@ def requests(c, out):
         return [("symtab", {"names": c["names"], "queries": c["names"]})]
     if k == "dict":
         return [("from_dict", {"dict": tag_dict(c["dict"]), **sympy_globals(dict_texts(c["dict"]))})]
-    if c.get("oracle_only"):
+    if c.get("oracle_only") or out.get("phase_err"):
         return []
     reqs = []
     d = out.get("dict")
@@ -905,7 +1659,7 @@ def compare(c, out, resp):
     _LENIENT[0] = False
     if k == "dict":
         return _cmp_back(resp[0], out, False)
-    multi = k == "circuitset"
+    multi = k in ("circuitset", "family")
     r0 = resp[0]
     d = out.get("dict")
     if isinstance(r0, str):
@@ -929,23 +1683,58 @@ def _is_number(p):
     return isinstance(p, numbers.Number) and not isinstance(p, sympy.Basic)
 
 
+def _exact_value(q):
+    """(re, im) of a sympy number as exact rationals (a Float counts as the binary number it is); None if not one"""
+    sympy = _m()[0]
+    try:
+        re_, im_ = q.as_real_imag()
+        out = []
+        for x in (re_, im_):
+            if not isinstance(x, (sympy.Rational, sympy.Float)):
+                return None
+            if isinstance(x, sympy.Float):
+                sign, man, exp, _bc = x._mpf_
+                x = Fraction(int(man)) * (Fraction(2) ** int(exp)) * (-1 if sign else 1)
+            else:
+                x = Fraction(int(x.p), int(x.q))
+            out.append(x)
+        return tuple(out)
+    except Exception:
+        return None
+
+
+def _rel_close(a, b):
+    return abs(a - b) <= 1e-12 * max(abs(a), abs(b))
+
+
 def _expr_close(p, q):
     """equal as numbers or expressions: exactly, or to 1e-12 relative on floating-point coefficients"""
     sympy = _m()[0]
     if _is_number(p):
         if isinstance(p, int):
             return bool(q == p)                       # Python numbers: exactly
-        # a Python float comes back as sympy.Float(repr(p)); with 16-17 significant digits sympy keeps 57-60 bits
-        # of the *decimal* text, which is a different real number than the double (finding SIG_FLOAT, reported
-        # softly: the walk goes on, so it never masks another failure)
+        if not isinstance(q, sympy.Expr) and not _is_number(q):
+            return False
         try:
             if bool(q == p):
                 return True
-            qc = complex(sympy.N(q, 40))
         except (TypeError, ValueError):
             return False
-        if abs(qc - complex(p)) <= 4e-16 * abs(complex(p)):
-            _SOFT.append(f"Python float {p!r} came back as {sympy.srepr(q)[:60]}, which is != {p!r}")
+        pc = complex(p)
+        ev = _exact_value(sympy.sympify(q))
+        if ev is None:
+            return False
+        if ev == (Fraction(pc.real), Fraction(pc.imag)):
+            return True                               # the same number, written 2 + 3*I instead of 2.0 + 3.0*I
+        # a Python float comes back as sympy.Float(repr(p)); with 16-17 significant digits sympy keeps 56-60 bits
+        # of the *decimal* text, which is a different real number than the double (finding SIG_FLOAT, reported
+        # softly: the walk goes on, so it never masks another failure).  The class is exactly that: what came back is
+        # the decimal repr of the original to better than half an ulp.  Anything else - the neighbouring double, a
+        # 15-digit rounding - is a plain violation.
+        from decimal import Decimal
+        dec = (Fraction(Decimal(repr(pc.real))), Fraction(Decimal(repr(pc.imag))))
+        if all(abs(e - d) <= Fraction(3, 4 * 2 ** 53) * abs(d) for e, d in zip(ev, dec)):
+            _SOFT.append(f"Python number {p!r} came back as {sympy.srepr(q)[:60]}, which is != {p!r}")
             return True
         return False
     if isinstance(p, sympy.Symbol):
@@ -959,11 +1748,24 @@ def _expr_close(p, q):
     if p.free_symbols != q.free_symbols:
         return False
     syms = sorted(p.free_symbols, key=str)
-    for trial in range(3):
-        pt = {s: sympy.Rational(3 + 2 * i + trial, 7 + i) for i, s in enumerate(syms)}
-        a, b = complex(sympy.N(p.subs(pt), 30)), complex(sympy.N(q.subs(pt), 30))
-        if abs(a - b) > 1e-12 * max(abs(a), abs(b), 1e-300):
-            return False
+    # value and every partial derivative (for a linear expression: every coefficient separately, so that a small
+    # coefficient cannot hide behind a large one) at three points
+    try:
+        fa = [p] + [sympy.diff(p, x) for x in syms]
+        fb = [q] + [sympy.diff(q, x) for x in syms]
+        for trial in range(3):
+            pt = {x: sympy.Rational(3 + 2 * i + trial, 7 + i) for i, x in enumerate(syms)}
+            for ea, eb in zip(fa, fb):
+                a, b = complex(sympy.N(ea.subs(pt), 30)), complex(sympy.N(eb.subs(pt), 30))
+                if not _rel_close(a, b):
+                    return False
+        if syms:                                      # the constant term on its own
+            z = {x: 0 for x in syms}
+            a, b = complex(sympy.N(p.subs(z), 30)), complex(sympy.N(q.subs(z), 30))
+            if not _rel_close(a, b):
+                return False
+    except (TypeError, ValueError):
+        return False
     return True
 
 
@@ -973,6 +1775,16 @@ def _exact(p):
     if _is_number(p) or not isinstance(p, sympy.Expr):
         return True
     return all(sympy.sympify(str(f)) == f for f in p.atoms(sympy.Float))
+
+
+def _show(p, q):
+    sympy = _m()[0]
+    if str(p) == str(q):
+        try:
+            return f"{sympy.srepr(p)} became {sympy.srepr(q)}"[:300]
+        except Exception:
+            pass
+    return f"{p!r} became {q!r}"[:300]
 
 
 def _gate_walk(a, b, path):
@@ -994,14 +1806,14 @@ def _gate_walk(a, b, path):
                 return f"{path}: definition matrix shape changed"
             for x, y in zip(da.matrix, db.matrix):
                 if not _expr_close(x, y):
-                    return f"{path}: definition matrix entry {x} became {y}"
+                    return f"{path}: definition matrix entry {_show(x, y)}"
         elif a.matrix_factory is not b.matrix_factory:
             return f"{path}: built-in {a.name} lost its matrix factory"
         if len(a.params) != len(b.params):
             return f"{path}: {len(a.params)} parameters became {len(b.params)}"
         for i, (p, q) in enumerate(zip(a.params, b.params)):
             if not _expr_close(p, q):
-                return f"{path}: parameter {i} of {a.name}: {p!r} became {q!r}"
+                return f"{path}: parameter {i} of {a.name}: {_show(p, q)}"
         return None
     if isinstance(a, g.ControlledGate) and a.num_control_qubits != b.num_control_qubits:
         return f"{path}: {a.num_control_qubits} controls became {b.num_control_qubits}"
@@ -1061,59 +1873,97 @@ def oracle(c, out):
             return ("symbol-table-lookup", f"names {bad} of {names} do not deserialise to their own symbol: {out['resolve']}")
         return None
     specs = _circ_specs(c)
-    if c.get("conflict"):
-        return None if out.get("dict") is None else ("conflicting-definitions-accepted", "two different definitions with one name were serialised")
-    sig = (SIG_CUSTOM_SYM if any(in_finding_class(cs) for cs in specs)
+    if c.get("conflict") and out.get("dict") is None and out.get("err2") == "err:value":
+        return None                                   # two different definitions under one name: refused, no round trip
+    sig = (SIG_MERGED if c.get("within_tolerance")
+           else SIG_CUSTOM_SYM if any(in_finding_class(cs) for cs in specs)
            else SIG_NAME_TEXT if any(in_text_collision_class(cs) for cs in specs) else None)
+    live = _LIVE.get(common.canon(c))
+    if k == "family":
+        if live is None or live[0] != "pairs":
+            return ("oracle-no-objects", f"live objects missing ({out.get('exc')}: {out.get('msg')})")
+        del _SOFT[:]
+        for label, a, b, with_matrix in live[1]:
+            r = _check_pair(a, b, label, sig, with_matrix)
+            if r:
+                return r
+        if out.get("phase_err"):
+            return (sig or "history-raises", f"a step of the history raised: {out.get('msg')}")
+        if "len2" in out:
+            return ("circuitset-length", f"{len(c['circs'])} circuits became {out['len2']}")
+        if "err2" in out:
+            return (sig or "deserialise-raises", f"the round trip returned a non-gate: {out.get('msg')} [{out['err2']}]")
+        return (SIG_FLOAT, _SOFT[0]) if _SOFT else None
     if "dict" in out and out["dict"] is None:
         return (sig or "serialise-raises", f"to_dict raised: {out.get('msg')}")
     if "err2" in out:
         return (sig or "deserialise-raises", f"the round trip raised / returned a non-gate: {out.get('msg')} [{out['err2']}]")
-    live = _LIVE.get(common.canon(c))
     if live is None:
-        return ("oracle-no-objects", "live objects missing")
+        return ("oracle-no-objects", f"live objects missing ({out.get('exc')}: {out.get('msg')})")
     objs, backs = live
     del _SOFT[:]
     if len(objs) != len(backs):
         return ("circuitset-length", f"{len(objs)} circuits became {len(backs)}")
     for ci, (a, b) in enumerate(zip(objs, backs)):
-        here = f"circuit[{ci}]"
-        if not isinstance(b, cq.Circuit):
-            return ("not-a-circuit", f"{here}: deserialised to {type(b).__name__}")
-        if a.n_qubits != b.n_qubits:
-            return ("register-width", f"{here}: n_qubits {a.n_qubits} became {b.n_qubits}")
-        if len(a.operations) != len(b.operations):
-            return ("operation-count", f"{here}: {len(a.operations)} operations became {len(b.operations)}")
-        exact = True
-        for oi, (x, y) in enumerate(zip(a.operations, b.operations)):
-            if tuple(x.qubit_indices) != tuple(y.qubit_indices):
-                return ("qubit-indices", f"{here}.op[{oi}]: qubits {x.qubit_indices} became {y.qubit_indices}")
-            msg = _gate_walk(x.gate, y.gate, f"{here}.op[{oi}]")
-            if msg:
-                return (sig or "structure-or-parameter", msg)
-            exact = exact and all(_exact(p) for p in x.gate.params)
-            inner = x.gate
-            while hasattr(inner, "wrapped_gate"):
-                inner = inner.wrapped_gate
-            if isinstance(inner.matrix_factory, g.CustomGateMatrixFactory):
-                exact = exact and all(_exact(e) for e in inner.matrix_factory.gate_definition.matrix)
-        if exact and not (a == b):
-            return (sig or "not-equal", f"{here}: parameters are exactly representable but the deserialised circuit != original")
-        if [str(s) for s in a.free_symbols] != [str(s) for s in b.free_symbols] or list(a.free_symbols) != list(b.free_symbols):
-            return (sig or "free-symbols", f"{here}: free symbols {a.free_symbols} became {b.free_symbols}")
-        # same matrix at an assignment of the symbols (per gate; bounded cost)
-        syms = list(a.free_symbols)
-        point = {s: sympy.Float(0.37 + 0.211 * i) for i, s in enumerate(syms)}
-        done = 0
-        for oi, (x, y) in enumerate(zip(a.operations, b.operations)):
-            if done >= 3 or x.gate.num_qubits > 3 or _cost(x.gate) > 0 or not _moderate(x.gate.params, point):
-                continue
-            done += 1
-            ma, mb = _matrix_at(x.gate, point), _matrix_at(y.gate, point)
-            if ma.shape != mb.shape or not np.allclose(ma, mb, atol=1e-9, rtol=0):
-                return (sig or "matrix", f"{here}.op[{oi}]: matrix changed at {point}: max diff {abs(ma - mb).max() if ma.shape == mb.shape else 'shape'}")
+        r = _check_pair(a, b, f"circuit[{ci}]", sig, ci < 8)
+        if r:
+            return r
     if _SOFT:
         return (SIG_FLOAT, _SOFT[0])
+    return None
+
+
+def _check_pair(a, b, here, sig, with_matrix=True):
+    """the property's sentences for one original circuit `a` and what came back for it, `b`"""
+    sympy, np, cq, bg, g, sd = _m()
+    if not isinstance(b, cq.Circuit):
+        return ("not-a-circuit", f"{here}: deserialised to {type(b).__name__}")
+    if a.n_qubits != b.n_qubits:
+        return ("register-width", f"{here}: n_qubits {a.n_qubits} became {b.n_qubits}")
+    if len(a.operations) != len(b.operations):
+        return ("operation-count", f"{here}: {len(a.operations)} operations became {len(b.operations)}")
+    exact = True
+    for oi, (x, y) in enumerate(zip(a.operations, b.operations)):
+        if tuple(x.qubit_indices) != tuple(y.qubit_indices):
+            return ("qubit-indices", f"{here}.op[{oi}]: qubits {x.qubit_indices} became {y.qubit_indices}")
+        msg = _gate_walk(x.gate, y.gate, f"{here}.op[{oi}]")
+        if msg:
+            return (sig or "structure-or-parameter", msg)
+        exact = exact and all(_exact(p) for p in x.gate.params)
+        inner = x.gate
+        while hasattr(inner, "wrapped_gate"):
+            inner = inner.wrapped_gate
+        if isinstance(inner.matrix_factory, g.CustomGateMatrixFactory):
+            exact = exact and all(_exact(e) for e in inner.matrix_factory.gate_definition.matrix)
+    if exact and not (a == b):
+        return (sig or "not-equal", f"{here}: parameters are exactly representable but the deserialised circuit != original")
+    if [str(s) for s in a.free_symbols] != [str(s) for s in b.free_symbols] or list(a.free_symbols) != list(b.free_symbols):
+        return (sig or "free-symbols", f"{here}: free symbols {a.free_symbols} became {b.free_symbols}")
+    if not with_matrix:
+        return None
+    # same matrix at an assignment of the symbols (per gate; bounded cost)
+    syms = list(a.free_symbols)
+    point = {s: sympy.Float(0.37 + 0.211 * i) for i, s in enumerate(syms)}
+    done = 0
+    for oi, (x, y) in enumerate(zip(a.operations, b.operations)):
+        if done >= 3 or x.gate.num_qubits > 3 or _cost(x.gate) > 0 or not _moderate(x.gate.params, point):
+            continue
+        if any(isinstance(p_, np.generic) for p_ in x.gate.params):
+            continue          # sympy 1.9 cannot take numpy-2 scalars into a matrix (environment, not the property)
+        done += 1
+        try:
+            ma = _matrix_at(x.gate, point)
+        except Exception:
+            continue          # the original itself has no matrix here (a singular matrix to a negative power, ...)
+        try:
+            mb = _matrix_at(y.gate, point)
+        except Exception as e:
+            return (sig or "matrix", f"{here}.op[{oi}]: the original has a matrix at {point}, the deserialised gate raises {type(e).__name__}: {e}"[:300])
+        if not np.isfinite(ma).all():
+            continue          # overflow in the original's own matrix: nothing to compare
+        scale = max(1.0, float(abs(ma).max())) if ma.size else 1.0
+        if ma.shape != mb.shape or not np.allclose(ma, mb, atol=1e-9 * scale, rtol=0):
+            return (sig or "matrix", f"{here}.op[{oi}]: matrix changed at {point}: max diff {abs(ma - mb).max() if ma.shape == mb.shape else 'shape'}")
     return None
 
 
